@@ -3,7 +3,7 @@ import itertools
 import random
 
 from bcverif import encode as E
-from bcverif.runner import pmap, setup_repo_import
+from bcverif.runner import pmap, setup_repo_import, suite_events
 
 
 def layouts(G, K, overlapping=False):
@@ -157,6 +157,7 @@ def run(chk):
         small = rnd.sample(small, 500)
     parts = pmap(_cds_events, [(small[i::nsh], 7, chk.seed * 337 + i, None) for i in range(nsh)])
     evs += [e for p in parts for e in p]
+    evs += suite_events(chk, "C05Trace")  # leg S: the repository's own tests, traced passively
     chk.validate("C05Trace", evs, shard=800, label="cds", keyfn=_key)
     chk.exhaustive = not quick
     chk.nontrivial = len({(str(e[1]), str(e[2])) for e in evs if e[0] == "cds"})
